@@ -204,7 +204,7 @@ func TestWorker(t *testing.T) {
 		if stateF != nil {
 			stateF.WriteAt([]byte(fmt.Sprintf("%-12d %-24d\n", idx, seed)), 0)
 		}
-		sp := kernel.Spec{Prop: propID, Seed: seed, Index: idx, Known: known}
+		sp := kernel.Spec{Prop: propID, Seed: seed, Index: idx, Known: known, Scale: scaleOfTier()}
 		curIdx.Store(int64(idx))
 		runStart.Store(time.Now().UnixNano())
 		res := kernel.Exec(t, sp, p.Engine)
@@ -352,7 +352,16 @@ type replayFile struct {
 	Seed      uint64            `json:"seed"`
 	Index     int               `json:"index"`
 	Tape      []uint32          `json:"tape"`
+	Scale     int               `json:"scale"`
 	Violation *kernel.Violation `json:"violation"`
+}
+
+// scaleOfTier: the thorough tier draws from wider bounds (Run.Deep).
+func scaleOfTier() int {
+	if os.Getenv("VERIF_TIER") == "thorough" {
+		return 2
+	}
+	return 1
 }
 
 func replay(t *testing.T, p *Prop, path string, known map[string]bool, emit func(any)) {
@@ -370,6 +379,6 @@ func replay(t *testing.T, p *Prop, path string, known map[string]bool, emit func
 	if tape == nil {
 		tape = []uint32{}
 	}
-	res := kernel.Exec(t, kernel.Spec{Prop: p.ID, Seed: rf.Seed, Index: rf.Index, Tape: tape, Known: known, Trace: true}, p.Engine)
+	res := kernel.Exec(t, kernel.Spec{Prop: p.ID, Seed: rf.Seed, Index: rf.Index, Tape: tape, Known: known, Trace: true, Scale: rf.Scale}, p.Engine)
 	emit(map[string]any{"type": "replay", "result": res, "expected": rf.Violation})
 }
